@@ -100,8 +100,8 @@ type world struct {
 	initDone bool
 	inPool   int
 
-	slowOcc  []int
-	procQs   reflect.Value
+	procQs   []chan *router.Packet
+	slowQs   []chan *router.Packet
 	egress   map[string]reflect.Value
 	intprocQ reflect.Value
 	procStop chan struct{}
@@ -111,11 +111,13 @@ type world struct {
 	tearing  bool
 	shutting bool
 	shutDone atomic.Bool
+	stop     bool
 	steps    int
 	outputs  int
 	scmpOut  int
 	bfdOut   int
 	granted  map[string]bool
+	actors   []string
 
 	jit  map[string][]int
 	jctr map[string]int
@@ -155,6 +157,9 @@ func (w *world) actorHook(name string, id int) {
 	}
 	a := w.sched.Register(full)
 	a.Data = &actorState{}
+	w.mu.Lock()
+	w.actors = append(w.actors, full)
+	w.mu.Unlock()
 }
 
 func (w *world) yieldHook(site string) {
@@ -173,9 +178,6 @@ func (w *world) yield(a *core.Actor, site string) {
 	switch {
 	case prev == "proc.slowq" && site == "pool.put":
 		w.r.Probe("slow-path-queue-full")
-	case prev == "proc.slowq":
-		id, _ := strconv.Atoi(a.Name[len("proc:"):])
-		w.slowOcc[id%w.k.nsp]++
 	case prev == "link.send" && site == "pool.put":
 		w.r.Probe("egress-queue-full:" + classOf(a.Name))
 	case prev == "link.enqueue" && site == "pool.put":
@@ -265,6 +267,37 @@ func (w *world) poolHook(op string, p *router.Packet) {
 		b.stage, b.who = stGot, name
 		w.inPool--
 	}
+}
+
+// panicHook receives a panic of a router goroutine (hook VerifRecover); the goroutine then ends.
+func (w *world) panicHook(v any, stack []byte) {
+	name := "?"
+	if a := w.sched.Current(); a != nil {
+		name = a.Name
+	}
+	site := core.PanicSite(string(stack))
+	w.mu.Lock()
+	defer w.mu.Unlock()
+	if w.tearing {
+		return
+	}
+	w.stop = true
+	sig := "panic:" + site
+	if w.r.IsKnown(sig) {
+		w.r.NoteKnown(sig)
+		return
+	}
+	when := "while running"
+	if w.shutting {
+		when = "during Shutdown()"
+	}
+	w.r.Fail("no-panic", sig, "goroutine %s of the router panics %s: %v (in %s)", name, when, v, site)
+}
+
+func (w *world) stopped() bool {
+	w.mu.Lock()
+	defer w.mu.Unlock()
+	return w.stop
 }
 
 func (w *world) jitter(n int) int {
@@ -559,7 +592,6 @@ func chanOf[T any](f reflect.Value) chan T {
 // internal link's processor).
 func (w *world) discover() {
 	l0 := reflect.ValueOf(w.c.VerifLink(0)).Elem()
-	w.procQs = l0.FieldByName("procQs")
 	w.egress = map[string]reflect.Value{"internal": l0.FieldByName("egressQ")}
 	w.intprocQ = l0.FieldByName("procQ")
 	w.procStop = chanOf[struct{}](l0.FieldByName("procStop"))
@@ -570,7 +602,7 @@ func (w *world) discover() {
 			w.egress[in.conn.name] = lv.FieldByName("egressQ")
 		}
 	}
-	if !w.procQs.IsValid() || w.procQs.Len() != w.k.np || w.procStop == nil {
+	if len(w.procQs) != w.k.np || len(w.slowQs) != w.k.nsp || w.procStop == nil {
 		panic(core.InfraError{Msg: "cannot observe the router's queues"})
 	}
 }
@@ -593,12 +625,10 @@ func (w *world) enabled(a *core.Actor) bool {
 		return w.c.VerifPoolLen() > 0
 	case "proc.recv":
 		id, _ := strconv.Atoi(a.Name[len("proc:"):])
-		return w.procQs.Index(id).Len() > 0
+		return len(w.procQs[id]) > 0
 	case "slow.recv":
 		id, _ := strconv.Atoi(a.Name[len("slow:"):])
-		w.mu.Lock()
-		defer w.mu.Unlock()
-		return w.slowOcc[id] > 0
+		return len(w.slowQs[id]) > 0
 	case "send.dequeue":
 		name := a.Name[len("send:"):]
 		w.mu.Lock()
@@ -653,13 +683,6 @@ func (w *world) grant(a *core.Actor) {
 		}
 		w.mu.Lock()
 		c.wbPlan, c.wbK = plan, k
-		w.mu.Unlock()
-	case "slow.recv":
-		id, _ := strconv.Atoi(a.Name[len("slow:"):])
-		w.mu.Lock()
-		if w.slowOcc[id] > 0 {
-			w.slowOcc[id]--
-		}
 		w.mu.Unlock()
 	}
 	if strings.HasPrefix(a.Name, "proc:") {
@@ -747,11 +770,24 @@ func (w *world) startShutdown() {
 	}()
 }
 
-func (w *world) checkIdle() {
+func (w *world) checkIdle(ps []*core.Actor) {
 	r := w.r
 	r.Probe("idle-quiescence")
 	w.mu.Lock()
 	defer w.mu.Unlock()
+	parked := map[string]bool{}
+	for _, a := range ps {
+		parked[a.Name] = true
+	}
+	names := append([]string(nil), w.actors...)
+	sort.Strings(names)
+	for _, n := range names {
+		if c := classOf(n); (c == "proc" || c == "slow" || c == "intproc") && !parked[n] {
+			w.fail("c14-liveness", "blocked:"+c,
+				"idle quiescence, but %s is blocked inside the router (not at a queue receive): it waits for something that never comes", n)
+			return
+		}
+	}
 	out, lent, stale := 0, 0, -1
 	heldNow := map[int]bool{}
 	for _, c := range w.conns {
@@ -799,7 +835,6 @@ func (w *world) run() {
 	w.jit = map[string][]int{}
 	w.jctr = map[string]int{}
 	w.configure()
-	w.slowOcc = make([]int, w.k.nsp)
 	for _, in := range w.ifs {
 		if in.bfd {
 			t := make([]int, 6)
@@ -840,9 +875,12 @@ func (w *world) run() {
 	router.VerifYieldHook = w.yieldHook
 	router.VerifActorHook = w.actorHook
 	router.VerifPoolHook = w.poolHook
+	router.VerifPanicHook = w.panicHook
+	router.VerifQueuesHook = func(procQs, slowQs []chan *router.Packet) { w.procQs, w.slowQs = procQs, slowQs }
 	bfd.VerifSetJitterSource(w.jitter)
 	defer func() {
-		router.VerifYieldHook, router.VerifActorHook, router.VerifPoolHook = nil, nil, nil
+		router.VerifYieldHook, router.VerifActorHook, router.VerifPoolHook, router.VerifPanicHook = nil, nil, nil, nil
+		router.VerifQueuesHook = nil
 		bfd.VerifSetJitterSource(nil)
 	}()
 
@@ -880,7 +918,7 @@ func (w *world) loop(shutdownAt int) {
 			return
 		}
 		ps := w.sched.Parked()
-		if r.Failed() {
+		if r.Failed() || w.stopped() {
 			return
 		}
 		for n, until := range w.stalled {
@@ -976,7 +1014,7 @@ func (w *world) loop(shutdownAt int) {
 			}
 			return
 		}
-		w.checkIdle()
+		w.checkIdle(ps)
 		if r.Failed() {
 			return
 		}
